@@ -1150,3 +1150,16 @@ B('DS-negative-bounds-raw', ['C08'], 'util.py', 'slice_to_ascending_slice',
   '    if (key.start is not None and key.start < 0) or (key.stop is not None and key.stop < 0):', '    if False:', 'I.descending-slice-normalised', 'slice_to_ascending_slice')
 B('DS-only-start-normalised', ['C08'], 'util.py', 'slice_to_ascending_slice',
   '    if (key.start is not None and key.start < 0) or (key.stop is not None and key.stop < 0):', '    if key.start is not None and key.start < 0:', 'I.descending-slice-normalised', 'slice_to_ascending_slice')
+
+# ---------------------------------------------------------------------------------- out parameter written (C15)
+B('OP-logical-empty-returns-only', ['C15'], 'util.py', '_ufunc_logical_skipna',
+  '        if out is not None:\n            out[NULL_SLICE] = ufunc == np.all\n            return out\n        return ufunc == np.all', '        return ufunc == np.all',
+  'I.out-parameter-written', '_ufunc_logical_skipna')
+B('OP-logical-truthy-returns-only', ['C15'], 'util.py', '_ufunc_logical_skipna',
+  '    if out is not None:\n        out[NULL_SLICE] = True\n        return out\n    return np.full(', '    return np.full(', 'I.out-parameter-written', '_ufunc_logical_skipna')
+B('OP-axis-skipna-dates-drop-out', ['C15'], 'util.py', 'ufunc_axis_skipna',
+  '        return ufunc(array, axis=axis, out=out)\n\n    elif array.dtype.kind in DTYPE_STR_KINDS', '        return ufunc(array, axis=axis)\n\n    elif array.dtype.kind in DTYPE_STR_KINDS',
+  'I.out-parameter-written', 'ufunc_axis_skipna')
+N('OP-logical-empty-guard-flipped', ['C15'], 'util.py', '_ufunc_logical_skipna',
+  '        if out is not None:\n            out[NULL_SLICE] = ufunc == np.all\n            return out\n        return ufunc == np.all',
+  '        if out is None:\n            return ufunc == np.all\n        out[NULL_SLICE] = ufunc == np.all\n        return out')
